@@ -79,7 +79,16 @@ impl FlagOnDrop {
             // batch was abandoned, or during the callback) is reported again by the next wait -- no lost wake-up
             &&& ps.1.inner().want_mode() is Level
             &&& ps.1.inner().want_interest() == Interest::READ
+            // ... and starts with an EMPTY counter (neither a ping nor the close marker pending: a fresh source is not born
+            // "pinged" or "closed"), non-blocking (the drain in process_events must never block the loop) and close-on-exec
+            &&& crate::rustix::event::evfd_initval(ps.0.raw()) == 0
+            &&& crate::rustix::event::evfd_flags(ps.0.raw()).bits & 0x800 == 0x800
+            &&& crate::rustix::event::evfd_flags(ps.0.raw()).bits & 0x80000 == 0x80000
         },
 //@ entry
-    proof { broadcast use axiom_arcasfd_fd; }
+    proof {
+        broadcast use axiom_arcasfd_fd, crate::ext::axiom_fd_raw_arc;
+        assert((0x80000u32 | 0x800u32) & 0x800u32 == 0x800u32) by (bit_vector);
+        assert((0x80000u32 | 0x800u32) & 0x80000u32 == 0x80000u32) by (bit_vector);
+    }
 //@ enditem
